@@ -95,13 +95,18 @@ class QBytesTensor(QTensor):
 
     @classmethod
     def __torch_dispatch__(cls, op, types, args, kwargs=None):
-        from .qbytes_ops import get_qbytestensor_op_dispatch
+        from .qbytes_ops import get_qbytestensor_op_dispatch, qbytes_inplace_fallback
 
+        # Operations that write into one of their arguments need a dedicated fallback
+        is_mutable = op._schema.is_mutable
         # Do not use directly op, but rather its overload
         op = op.overloadpacket
         # Look for a dispatched op accepting QBytesTensor inputs
         qdispatch = get_qbytestensor_op_dispatch(op)
         if qdispatch is not None:
             return qdispatch(*args, **kwargs)
+        if is_mutable:
+            # No dispatch available: evaluate the out-of-place variant and write its result back
+            return qbytes_inplace_fallback(op, *args, **(kwargs or {}))
         # No dispatch available: qfallback
         return qfallback(op, *args, **kwargs)
